@@ -597,5 +597,5 @@ pub fn chunk_shape(k: usize, r: usize, high: bool) -> &'static str {
 
 /// Monotone map of a raw 16-bit draw onto 0..=len (shrinks towards 0).
 pub fn idx_map(raw: u16, len: usize) -> usize {
-    ((raw as u64 * (len as u64 + 1)) >> 16) as usize
+    ((raw as u128 * (len as u128 + 1)) >> 16) as usize
 }
